@@ -1452,6 +1452,10 @@ impl Session {
     pub fn verif_is_client(&self) -> bool {
         self.is_client
     }
+    /// md5 of the padding scheme currently in force for this session
+    pub async fn verif_padding_md5(&self) -> String {
+        self.padding.read().await.md5().to_string()
+    }
 }
 
 #[cfg(test)]
